@@ -94,7 +94,7 @@ theorem stepEff_quiesced (cfg : Cfg) (sh : Shared) (n t : Nat) (th : Thread) (al
   | pick _ _ _ _ _ _ _ h4 => rw [h4]; exact hq
   | quiesce _ _ _ _ _ _ _ h4 => exact h4
   | joined _ _ _ _ h => rw [h.quiesced]; exact hq
-  | setShut _ _ _ _ _ _ _ h4 => rw [h4]; exact hq
+  | setShut _ _ _ _ _ _ _ _ h4 => rw [h4]; exact hq
   | restart hth => rw [hth] at hnr; cases hnr
 
 /-- P3 (one step): from a state in which a join loop has completed, no step starts a task body -/
